@@ -524,3 +524,85 @@ func init() {
 		return ret1(st, e.deepEq(st, args[0], args[1], 0))
 	}
 }
+
+// encoding/json for the one shape the repository stores that way: slices of unsigned integers (gauge id lists). Concrete
+// values are rendered / parsed exactly as encoding/json does ("[1,2]", "[]", "null").
+func init() {
+	intrinsics["encoding/json.Marshal"] = func(e *Exec, st *State, fn *ssa.Function, args []Value, depth int) []Outcome {
+		iv, ok := args[0].(Iface)
+		if !ok || iv.T == nil {
+			unsupported("json.Marshal of %T", args[0])
+		}
+		sl, isSl := iv.T.Underlying().(*types.Slice)
+		if !isSl {
+			unsupported("json.Marshal of %v (only slices of integers are modelled)", iv.T)
+		}
+		if b, ok := sl.Elem().Underlying().(*types.Basic); !ok || b.Info()&types.IsInteger == 0 || b.Kind() == types.Uint8 {
+			unsupported("json.Marshal of %v (only slices of integers are modelled)", iv.T)
+		}
+		s := iv.V.(Slice)
+		if s.Base.Obj == 0 {
+			return ret1(st, Tuple{e.stringToBytes(st, "null"), Iface{}})
+		}
+		var parts []string
+		for _, el := range e.sliceElems(st, s) {
+			t, ok := el.(*Term)
+			if !ok || t.Op != OpConst {
+				unsupported("json.Marshal of symbolic integers")
+			}
+			parts = append(parts, t.Val.String())
+		}
+		return ret1(st, Tuple{e.stringToBytes(st, "["+strings.Join(parts, ",")+"]"), Iface{}})
+	}
+	intrinsics["encoding/json.Unmarshal"] = func(e *Exec, st *State, fn *ssa.Function, args []Value, depth int) []Outcome {
+		data, ok := args[0].(Slice)
+		if !ok {
+			unsupported("json.Unmarshal of %T", args[0])
+		}
+		str, ok := e.bytesToString(st, data)
+		if !ok {
+			unsupported("json.Unmarshal of symbolic bytes")
+		}
+		iv, ok := args[1].(Iface)
+		if !ok || iv.T == nil {
+			unsupported("json.Unmarshal into %T", args[1])
+		}
+		pt, isPtr := iv.T.Underlying().(*types.Pointer)
+		if !isPtr {
+			unsupported("json.Unmarshal into non-pointer %v", iv.T)
+		}
+		sl, isSl := pt.Elem().Underlying().(*types.Slice)
+		if !isSl {
+			unsupported("json.Unmarshal into %v (only slices of integers are modelled)", iv.T)
+		}
+		if b, ok := sl.Elem().Underlying().(*types.Basic); !ok || b.Info()&types.IsInteger == 0 || b.Kind() == types.Uint8 {
+			unsupported("json.Unmarshal into %v (only slices of integers are modelled)", iv.T)
+		}
+		str = strings.TrimSpace(str)
+		if str == "null" {
+			e.store(st, iv.V, Slice{})
+			return ret1(st, Iface{})
+		}
+		if len(str) < 2 || str[0] != '[' || str[len(str)-1] != ']' {
+			return ret1(st, e.makeError(st, "json: cannot unmarshal "+str))
+		}
+		var vals []Value
+		body := strings.TrimSpace(str[1 : len(str)-1])
+		if body != "" {
+			for _, p := range strings.Split(body, ",") {
+				v, ok := new(big.Int).SetString(strings.TrimSpace(p), 10)
+				if !ok {
+					return ret1(st, e.makeError(st, "json: cannot unmarshal "+str))
+				}
+				vals = append(vals, e.TS.Int(v))
+			}
+		}
+		if len(vals) == 0 {
+			id := st.Heap.Alloc(&Agg{}, nil, "emptyslice")
+			e.store(st, iv.V, Slice{Base: Ptr{Obj: id}})
+			return ret1(st, Iface{})
+		}
+		e.store(st, iv.V, e.sliceFromValues(st, sl.Elem(), vals))
+		return ret1(st, Iface{})
+	}
+}
